@@ -75,6 +75,15 @@ def funcStarts (md : Module) : List Nat :=
 
 def regionOf (starts : List Nat) (a : Nat) : Nat := (starts.filter (· ≤ a)).length
 
+/-- start address of the function containing `a` (`none` = the top region before the first function) -/
+def regionStart (starts : List Nat) (a : Nat) : Option Nat := (starts.filter (· ≤ a)).getLast?
+
+/-- parameter count of the function containing `a`, as reported by the emitter hook; the top region has none -/
+def paramsAt (md : Module) (starts : List Nat) (a : Nat) : Option Nat :=
+  match regionStart starts a with
+  | none => some 0
+  | some st => (md.fnParams.find? (·.1 == st)).map (·.2)
+
 abbrev HMap := Array (Option AbsSt)
 
 /-- record a state for address `a`; `.error` on a height conflict -/
@@ -95,9 +104,15 @@ def absStep (md : Module) (starts : List Nat) (a : Nat) (i : Instr) (s : AbsSt) 
   let need (k : Nat) : Except String AbsSt :=
     match popN s k with | some r => .ok r | none => .error s!"{a}: needs {k} operands, the stack of this function holds {s.h}"
   let sameRegion (t : Nat) : Bool := regionOf starts t == regionOf starts a
-  let idLocalOk (sl idx : Int) : Except String Unit :=
-    if sl != (s.h : Int) then .error s!"{a}: stack_level {sl} recorded by the emitter, computed height {s.h}"
-    else if idx > sl then .error s!"{a}: local index {idx} above the top of stack (level {sl})" else .ok ()
+  let np : Nat := (paramsAt md starts a).getD 0
+  let topRegion := (regionStart starts a).isNone
+  -- frame-relative addressing `sp - d`: the slot must lie in the function's own frame (parameters + what it pushed);
+  -- in the top region (global initialisation, entry stub) everything below is the global segment
+  let reachOk (d : Int) (what : String) : Except String Unit :=
+    if d < 0 then .error s!"{a}: {what} addresses a slot above the top of stack (distance {d})"
+    else if !topRegion ∧ d ≥ (s.h : Int) + np then .error s!"{a}: {what} reaches {d} below the top: outside the frame (height {s.h}, {np} parameters)"
+    else .ok ()
+  let idLocalOk (sl idx : Int) : Except String Unit := reachOk (sl - idx) "local"
   match i.op with
   | .UNKNOWN => .error s!"{a}: unknown opcode"
   | .ID_FUNC_FUNC => .error s!"{a}: unresolved function placeholder"
@@ -138,13 +153,14 @@ def absStep (md : Module) (starts : List Nat) (a : Nat) (i : Instr) (s : AbsSt) 
     else
       -- the slide reaches into the parameter block: only the last-call sequence `args; func; SLIDE n+L n+1; CALL` may do
       -- that, and then exactly the n parameters are replaced: height = q + 1, and an unmarked CALL follows
-      if s.h != q + 1 then throw s!"{a}: SLIDE {q} {m} at height {s.h} reaches into the parameters but is not a last-call slide" else
+      if s.h != q + 1 ∨ m != np + 1 ∨ q + m != s.h + np then throw s!"{a}: SLIDE {q} {m} at height {s.h} in a function of {np} parameters is not the last-call slide (n+L, n+1)" else
       if (md.code[a + 1]?.map (·.op)) != some .CALL then throw s!"{a}: SLIDE into the parameters is not followed by CALL" else
       pure [(a + 1, { h := 1, consts := [] })]
   | .RET => do
     if s.h != 1 then throw s!"{a}: function returns with {s.h} slots above its parameters (must be exactly its result)" else pure []
   | .RETHROW | .UNHANDLED_EXCEPTION | .HALT => pure []
-  | .CLEAR_STACK => pure [(a + 1, { h := 0, consts := [] })]
+  | .CLEAR_STACK =>
+    if !topRegion ∧ i.w0 != np then throw s!"{a}: CLEAR_STACK {i.w0} in a function of {np} parameters" else pure [(a + 1, { h := 0, consts := [] })]
   | .PUSH_PARAM => pure [(a + 1, pushN s md.params.length)]
   | .MK_INIT_ARRAY => do
     let dims := i.w0
@@ -169,11 +185,11 @@ def absStep (md : Module) (starts : List Nat) (a : Nat) (i : Instr) (s : AbsSt) 
   | .ARRAY_APPEND => do
     idLocalOk (i32 i.w0) (i32 i.w1); let r ← need 1; pure [(a + 1, r)]
   | .VEC_DEREF | .VECREF_VEC_DEREF => do
-    if i32 i.w0 < 0 ∨ i32 i.w0 ≥ s.h then throw s!"{a}: attribute base {i32 i.w0} below the frame (height {s.h})" else pure [(a + 1, pushN s 1)]
-  | .DUP => if i.w0 == 0 ∨ i.w0 > s.h + 1 then throw s!"{a}: DUP {i.w0} reaches below the frame" else pure [(a + 1, pushN s 1)]
+    reachOk (i32 i.w0) "attribute base"; pure [(a + 1, pushN s 1)]
+  | .DUP => do reachOk ((i.w0 : Int) - 1) "DUP"; pure [(a + 1, pushN s 1)]
   | .REWRITE => do
     let r ← need 1
-    if i.w0 == 0 ∨ i.w0 > r.h then throw s!"{a}: REWRITE {i.w0} reaches below the frame" else pure [(a + 1, r)]
+    reachOk (i.w0 : Int) "REWRITE"; pure [(a + 1, r)]
   | _ =>
     match simpleEffect i with
     | some (p, q) => do let r ← need p; pure [(a + 1, pushN r q)]
@@ -200,6 +216,8 @@ def verify (md : Module) : Except String Summary := do
   if n == 0 then throw "empty module" else
   if !ExcWF md.exctab md.excCount then throw "exception table is not well-formed (first block 0, strictly increasing, sentinel)" else
   let starts := funcStarts md
+  for st in starts do
+    if (md.fnParams.find? (·.1 == st)).isNone ∧ !md.fnParams.isEmpty then throw s!"function at {st} has no parameter count from the emitter"
   -- handler entries
   let handlers := (md.exctab.toList.take md.excCount).map (·.handler)
   for hnd in handlers do
